@@ -17,6 +17,8 @@ func init() {
 }
 
 func runC01(r *engine.Run) {
+	r.Rule("DOM-itervalue", "in iterate the value a branch carries is handed to the handler under the value-node bit of the mask alone: a report that also needs the branch bit drops the entries at prefix paths from every values-only iteration")
+	r.Rule("DEP-wholevalue", "the decoder of a stored value keeps all of its input and never branches on the content of the bytes (a value that starts with a MessagePack nil code is a value: every cached node is a re-decoded copy, so a decoder that empties it makes the live entry look absent)")
 	r.Rule("ORDER-KEY-save", "see C04: the save writes every pending change, keyed by the hash of the node written beside it, in one MultiPutNode outside any loop (a batched writer that resets only one of the two slices files later nodes under keys that are not their hash: the state read back from the store loses values)")
 	r.Rule("WHO-readonly", "see C06: a lookup through the transaction cache - the node cache every trie lookup goes through - stores nothing into the cache's pending map (lookups hold only read locks and run in parallel: a memoising lookup is a concurrent map write)")
 	r.Rule("DOM-adopt", "see C03: a merge reports success only where this trie's root is the merged root (installed, or already equal): a fast path that returns nil before the deletes are replayed and the root moved - for a layer that created no node because it deleted every entry - leaves the lower trie answering with the dead pairs")
@@ -82,6 +84,8 @@ func runC01(r *engine.Run) {
 	domAdopt(r, "DOM-adopt")
 	orderKeySave(r)
 	whoReadOnly(r, "WHO-readonly")
+	iterValueMask(r, "DOM-itervalue")
+	wholeValue(r, "DEP-wholevalue")
 }
 
 var nodeKinds = []string{"ExtensionNode", "FullNode", "LeafNode"}
